@@ -161,3 +161,35 @@ Proof.
   change (32 =? 12) with false. change (32 =? 16) with false. change (32 =? 32) with true. cbv iota.
   repeat split; apply lor_low8; try exact Hm; apply low8_zero; reflexivity.
 Qed.
+
+(** the FAT12 rows of the size table keep the cluster count below 4085: every row (sectors, spc) has sectors <= 4084 * spc,
+    and mkfs uses the first row that covers the volume *)
+Lemma first_row_in n rows d v : first_row n rows d = v -> v <> d -> exists sec, In (sec, v) rows /\ n <= sec.
+Proof.
+  unfold first_row. intros H Hv. destruct (find (fun p => n <=? fst p) rows) as [[sec spc]|] eqn:E; [|congruence].
+  apply find_some in E. destruct E as [Hin Hle]. cbn in *. subst v. exists sec. split; [exact Hin|]. apply Z.leb_le. exact Hle.
+Qed.
+Lemma fat12_rows_ok : forallb (fun p => fst p <=? 4084 * snd p) (Gen.mkfs_table 12) = true.
+Proof. vm_compute. reflexivity. Qed.
+Theorem mkfs_fat12_count size ss nf p num_sec spc rootent rsvd f16 f32 t16 t32 :
+  0 < ss -> 0 <= size -> 0 <= nf ->
+  Gen.mkfs_geometry pf_init 12 size ss nf = Ok (p, num_sec, spc, rootent, rsvd, f16, f32, t16, t32) ->
+  num_sec <= 4084 * spc /\
+  (0 <= nf * _fat_size p -> (num_sec - (rsvd + root_dir_sectors p + nf * _fat_size p)) / spc < 4085).
+Proof.
+  intros Hss Hsz Hnf H.
+  destruct (mkfs_fits 12 size ss nf p num_sec spc rootent rsvd f16 f32 t16 t32 Hss Hsz Hnf H) as (_ & Hspc & _ & _ & Hr).
+  assert (Hrows : num_sec <= 4084 * spc /\ 0 <= root_dir_sectors p).
+  { unfold Gen.mkfs_geometry in H. change Gen.FAT_TYPE_FAT32 with 32 in H. change Gen.FAT_TYPE_FAT16 with 16 in H.
+    set (ns := size / ss) in *. set (sp := first_row ns (Gen.mkfs_table 12) 0) in *. cbv zeta in H.
+    destruct (sp =? 0) eqn:E0; [discriminate|]. apply Z.eqb_neq in E0.
+    match type of H with (if ?c then _ else _) = _ => destruct c; [discriminate|] end.
+    change (12 =? 32) with false in H. cbv iota in H. cbn [orb] in H.
+    destruct (first_row_in ns (Gen.mkfs_table 12) 0 sp eq_refl E0) as (sec & Hin & Hle).
+    pose proof (proj1 (forallb_forall _ _) fat12_rows_ok (sec, sp) Hin) as Hrow. cbn [fst snd] in Hrow. apply Z.leb_le in Hrow.
+    destruct (ns >=? 65536); injection H as <- <- <- <- <- <- <- <- <-; cbn [root_dir_sectors set__fat_size set_root_dir_sectors];
+      (split; [lia | apply Z.div_pos; [destruct (ss =? 512); lia | lia]]). }
+  destruct Hrows as [Hrow Hrds]. split; [exact Hrow|]. intros Hfs.
+  change (12 =? 32) with false in Hr. cbv iota in Hr. subst rsvd.
+  apply Z.div_lt_upper_bound; [exact Hspc|]. lia.
+Qed.
